@@ -356,10 +356,10 @@ class URL:
 
     def include_query_params(self, **kwargs: typing.Any) -> "URL":
         params: MutableMultiMapping[str, str] = MutableMultiMapping(
-            parse_qsl(self.query, keep_blank_values=True)
+            parse_qsl(self.query, keep_blank_values=True, errors="surrogateescape")
         )
         params.update({key: str(value) for key, value in kwargs.items()})
-        query = urlencode(params.multi_items())
+        query = urlencode(params.multi_items(), errors="surrogateescape")
         return self.replace(query=query)
 
     def replace_query_params(self, **kwargs: typing.Any) -> "URL":
@@ -368,10 +368,10 @@ class URL:
 
     def remove_query_params(self, *keys: str) -> "URL":
         params: MutableMultiMapping[str, str] = MutableMultiMapping(
-            parse_qsl(self.query, keep_blank_values=True)
+            parse_qsl(self.query, keep_blank_values=True, errors="surrogateescape")
         )
         [params.pop(key, None) for key in keys]
-        query = urlencode(params.multi_items())
+        query = urlencode(params.multi_items(), errors="surrogateescape")
         return self.replace(query=query)
 
     def __eq__(self, other: typing.Any) -> bool:
